@@ -1158,6 +1158,12 @@ class Sequence:
         returns a tuple of (dmax, seqDeltaMax)
         """
 
+        # If the permutant is requested but was never recorded (dmax was cached by an
+        # earlier call without it, or handed over at construction) the search below
+        # could never beat the cached value, so start it afresh
+        if returnSeqDeltaMax and self.seqDeltaMax is None:
+            self.dmax = -1
+
         # If this has been computed already, then return it
         if self.dmax != -1 and not returnSeqDeltaMax:
           return self.dmax
